@@ -409,7 +409,8 @@ def execute(plan):
             raise
         except Exception as e:
             viol("completes", step, "%s raised %s: %s" % (o, type(e).__name__, str(e)[:240]), op=o, exc=type(e).__name__,
-                 uses_closed_form=bool(kind == "closed" or plan["init"] == "closed_form"), noise_free=not plan["noise_var"])
+                 uses_closed_form=bool(kind == "closed" or plan["init"] == "closed_form"), noise_free=not plan["noise_var"],
+                 what=("lagrange_multiplier_search" if "Lagrange multiplier" in str(e) else None))
             break
         log.add(o, {k: v for k, v in op.items() if k != "op"})
         if m["F_def"] and res["status"] == "ok":
